@@ -39,6 +39,15 @@ var c01Corpus = []string{
 	"let i = 0\nlet j = 1\ni\n++\nj\nconsole.log(i, j)",
 	"function f() {\n  return\n  1\n}\nconsole.log(f())",
 	"let o = {a: 1, 'b c': 2, 3: 4}; o.a++; --o['b c']; o[3] += 1; console.log(o)",
+	// restricted productions and statement starts that could continue the previous line
+	"let x = 5\nfunction f() {\n  return\n  -x\n}\nconsole.log(f())",
+	"function g() {\n  return\n  {}\n}\nconsole.log(g())",
+	"let y = 2\nfunction h() {\n  return\n  +y\n}\nconsole.log(h())",
+	"function k() {\n  return\n  [1]\n}\nconsole.log(k())",
+	"function m() {\n  return\n  (1)\n}\nconsole.log(m())",
+	"let a = 1\nlet b = 2\nlet t\n-a\nconsole.log(t, a)\n{ b }\nconsole.log(b)",
+	"function n() { return `p\nq` }\nconsole.log(n())",
+	"let i = 1\nlet s = `u\nv`\n++i\nconsole.log(s, i)",
 }
 
 func genC01(r *rng, n int, tier string) []string {
